@@ -139,6 +139,22 @@ def gen_cases(rng, tier, prop):
     for code, d in cc.decoy_scope(rng, {"quick": 4, "thorough": 60}[tier], wraps=wraps):
         cases.append({"pattern": d.pattern, "code": code, "origin": "decoy:arrangement", "setup": "code",
                       "api": "find_matches", "spelling": "plain", "derived": d})
+    # nested binary operations (every tree shape x every operator assignment, operands distinct / repeated, inside
+    # every kind of statement): the pattern the program came from must match; the previous program's pattern on
+    # this program exercises rejection and partial overlap
+    last = None
+    for idx, (code, d, origin) in enumerate(cc.bin_scope(rng, tier)):
+        cases.append({"pattern": d.pattern, "code": code, "origin": origin, "setup": cc.SETUPS[idx % 3] if idx % 4 == 3 else "code",
+                      "api": "node" if idx % 11 == 10 else "find_matches", "spelling": "plain", "derived": d})
+        if (last is None or last[0] != code) and idx % 2 == 0:
+            pg = cc.commuted(rng, code)
+            if pg is not None:
+                cases.append({"pattern": pg[0], "code": code, "origin": "bin:commuted", "setup": "code",
+                              "api": "find_matches", "spelling": "plain", "generalisations": [pg[1]]})
+        if last is not None and idx % 3 == 0 and last[0] != code:
+            cases.append({"pattern": last[1].pattern, "code": code, "origin": "bin:cross", "setup": "code",
+                          "api": "find_matches", "spelling": "plain"})
+        last = (code, d)
     if tier == "thorough":
         cases.extend(small_scope_cases())
     return cases
@@ -250,6 +266,262 @@ def sub_cases(rng, c, r, counts=None):
                          "sub_expect": exp2},
                         dict(api=api, anchor=anchor, parent=parent, key=key, use_previous=prev)))
     return out
+
+
+# --------------------------------------------------------------------------
+# continued matches: a pattern rooted at ANY node kind, searched with an earlier match inherited
+
+def _kind_key(node):
+    k = type(node).__name__
+    if isinstance(node, (ast.BinOp, ast.UnaryOp, ast.BoolOp, ast.AugAssign)):
+        k += ":" + type(node.op).__name__
+    return k
+
+
+def _root_kind(pattern):
+    """kind of the node find_matches takes as the pattern's root (Module / Expr with one child trimmed away)"""
+    n = ast.parse(pattern)
+    while isinstance(n, (ast.Module, ast.Expr)):
+        kids = n.body if isinstance(n, ast.Module) else [n.value]
+        if len(kids) != 1:
+            break
+        n = kids[0]
+    return _kind_key(n)
+
+
+def _binds_as(cm, want):
+    """the canonical match binds every key of `want` to exactly that identifier"""
+    for k, x in want.items():
+        ids = [i for (_, kk), lst in cm["binds"].items() if kk == k for (i, _) in lst]
+        if not ids or any(i != x for i in ids):
+            return False
+    return True
+
+
+def derive_parent(rng, code, tree):
+    """a parent pattern that binds much: (a compound statement of) the program with most identifiers replaced by
+    placeholders, a subsequence of every long body kept, 0-2 sub-expressions / statements turned into __e__ / ___"""
+    dv = cc._Deriver(rng, code, tree)
+    compound = [st for st, _ in dv.statements() if hasattr(st, "body")]
+    if compound and rng.random() < 0.6:
+        dv.take_statement(rng.choice(compound))
+    for b in dv.bodies(3):
+        if rng.random() < 0.7:
+            dv.keep_subsequence(b, set(rng.sample(range(len(b)), rng.randint(1, 2))))
+    ids = dv.identifiers()
+    chosen = [x for x in ids if rng.random() < 0.6] or ids[:1]
+    for x in chosen:
+        dv.step_var(x)
+    for _ in range(rng.choice([0, 1, 1, 2])):
+        dv.step_wild(named=rng.random() < 0.7)
+    return dv.finish()
+
+
+def derive_child(rng, code, tree, target, bound, variant):
+    """the continued pattern: the subtree `target` (an expression, a statement, or a list of statements of one body -
+    nodes of the ORIGINAL tree) with the identifiers the parent bound replaced by the PARENT'S placeholder names
+    (variant "consistent"), or with a parent's placeholder put where the program has ANOTHER identifier (variant
+    "conflict": whatever it matches must still agree with the inherited binding); other identifiers sometimes
+    become fresh placeholders, 0-2 sub-expressions ___ / __e__."""
+    dv = cc._Deriver(rng, code, tree)
+    exclude = set()
+    if isinstance(target, list):
+        dv.take_statements([dv.copy_of[id(st)] for st in target])
+    elif isinstance(target, ast.stmt):
+        dv.take_statement(dv.copy_of[id(target)])
+    else:
+        exclude = {id(dv.take_expr(target))}
+    inv = {ident: key for key, ident in bound.items()}
+    ids = dv.identifiers()
+    if variant == "consistent":
+        if not any(i in inv for i in ids):
+            return None
+        for ident in ids:
+            if ident in inv:
+                dv.step_var(ident, key=inv[ident])
+    else:
+        others = [i for i in ids if i not in inv]
+        if not others:
+            return None
+        if rng.random() < 0.5:
+            for ident in ids:
+                if ident in inv:
+                    dv.step_var(ident, key=inv[ident])
+        dv.step_var(rng.choice(others), key=rng.choice(sorted(bound)), allow_existing=True)
+    for ident in dv.identifiers():
+        key = "_%s_" % ident
+        if ident not in inv and key not in bound and rng.random() < 0.3:
+            dv.step_var(ident, key=key)
+    for _ in range(rng.choice([0, 0, 1, 1, 2])):
+        dv.step_wild(exclude=exclude)
+    return dv.finish()
+
+
+def continued_targets(rng, tree, bound_ids, seen, budget, inside=None):
+    """nodes of the program to root a continued pattern at: one per node kind (operators told apart), the kinds that
+    were used least so far first; plus a pair of statements of one body (a Module-rooted pattern)."""
+    groups = {}
+    for node in ast.walk(tree):
+        if not isinstance(node, (ast.expr, ast.stmt)) or isinstance(node, (ast.Expr, ast.Slice, ast.Starred)):
+            continue
+        if inside is not None and id(node) not in inside:
+            continue
+        if isinstance(getattr(node, "ctx", None), (ast.Store, ast.Del)):
+            continue
+        size = sum(1 for _ in ast.walk(node))
+        if size > 60:
+            continue
+        names = {n.id for n in ast.walk(node) if isinstance(n, ast.Name)} | {n.arg for n in ast.walk(node) if isinstance(n, ast.arg)}
+        groups.setdefault(_kind_key(node), []).append((node, bool(names & bound_ids)))
+    bodies = [v for n in ast.walk(tree) for f in ("body", "orelse", "finalbody")
+              for v in [getattr(n, f, None)] if isinstance(v, list) and len(v) >= 2 and all(isinstance(x, ast.stmt) for x in v)]
+    if bodies and inside is None:
+        b = rng.choice(bodies)
+        i, j = sorted(rng.sample(range(len(b)), 2))
+        groups.setdefault("Module", []).append(([b[i], b[j]], True))
+    order = sorted(groups, key=lambda k: (seen.get(k, 0), rng.random()))
+    out = []
+    for k in order[:budget]:
+        with_bound = [t for t, has in groups[k] if has]
+        out.append((k, rng.choice(with_bound) if with_bound else rng.choice(groups[k])[0]))
+    return out
+
+
+def continued_cases(rng, tier, do, res, cases):
+    """Continued matches.  For a program, a PARENT pattern (the binder's own pattern / derived from the program) is
+    matched; each parent match that binds as expected is then continued - cait_api.find_matches / find_match(child,
+    use_previous=parent match) over the program, parent_match['__e__'].find_matches(child, use_previous=True / False)
+    inside the bound subtree - with CHILD patterns rooted at every node kind the program has, which reuse the
+    parent's _var_ names (for the same identifier / for another one), reuse or avoid its __expr__ names and have ___.
+    Oracles: C10 - a continued match together with the match it continues binds every _name_ to ONE identifier
+    (RealRun.embed_matches adds the inherited bindings, Lean checkMatch decides); C11 - a child derived from the
+    program consistently with the parent's bindings is found, every placeholder bound to what it replaced."""
+    seen = {}
+    n_prog, per_parent = {"quick": (30, 6), "thorough": (260, 10)}[tier]
+
+    def run_children(code, tree, origin, pc, pr, mi, children):
+        """children: [(pattern, expect {"vars", "exps": {key: [absolute paths]}} | None, [absolute path of the target])]"""
+        cm = pr.matches[mi]
+        for pat, expect, tpaths in children:
+            routes = [("prev", True, None, ())]
+            for key, anchor in sorted(cm["exps"].items()):
+                if tpaths and all(tuple(tp[:len(anchor)]) == tuple(anchor) and len(tp) >= len(anchor) for tp in tpaths):
+                    routes.append(("sub", True, key, anchor))
+                    if expect is not None:
+                        routes.append(("sub", False, key, anchor))
+                    break
+            for api, prev, key, anchor in routes:
+                exp2 = None
+                if expect is not None:
+                    cut = len(anchor)
+                    exps = {k: [tuple(x[cut:]) for x in v if tuple(x[:cut]) == tuple(anchor)] for k, v in expect["exps"].items()}
+                    if all(exps.values()):
+                        exp2 = {"vars": expect["vars"], "exps": exps, "naming": "continued"}
+                sc = {"pattern": pat, "code": code, "origin": origin + ":continued", "setup": "code", "api": api,
+                      "spelling": "plain", "use_previous": prev, "parent_pattern": pc["pattern"], "parent_key": key,
+                      "parent_match": mi, "sub_expect": exp2}
+                try:
+                    do(sc, api=api, anchor=anchor, parent=pr.raw[mi], key=key, use_previous=prev)
+                except RuntimeError:
+                    res.count("skipped:continued-anchor-mismatch")
+
+    # fixed witnesses first (small)
+    for code, ppat, pbinds, cpat, expect in cc.CONT_CORPUS:
+        pc = {"pattern": ppat, "code": code, "origin": "corpus:contparent", "setup": "code", "api": "find_matches",
+              "spelling": "plain"}
+        pr = do(pc)
+        if pr is None or pr.exc is not None or not pr.matches:
+            continue
+        good = [i for i, cm in enumerate(pr.matches) if _binds_as(cm, pbinds)]
+        if good:
+            kind = _root_kind(cpat)
+            seen[kind] = seen.get(kind, 0) + 1
+            res.count("continued-root:" + kind)
+            run_children(code, None, "corpus", pc, pr, good[0],
+                         [(cpat, None if expect is None else {"vars": expect, "exps": {}}, [])])
+    sources = []
+    cgen = cc.ContGen(rng)
+    for i in range(n_prog):
+        try:
+            code, binder, binds = cgen.program(i)
+        except SyntaxError:
+            res.count("skipped:continued-program-unparsable")
+            continue
+        sources.append((code, "cont", [(binder, binds)]))
+    other = list(dict.fromkeys(c["code"] for c in cases if c["origin"].split(":")[0] in ("gen", "decoy", "bin")
+                               and small_program(c["code"], 150)))
+    rng.shuffle(other)
+    sources += [(code, "mixed", []) for code in other[:{"quick": 18, "thorough": 160}[tier]]]
+    for code, origin, fixed in sources:
+        tree = ast.parse(code)
+        opath = cc.ast_index(tree)
+        parents = [cc.Derived(code, pat, {}, dict(binds), ["binder"], "binder") for pat, binds in fixed]
+        try:
+            dpar = derive_parent(rng, code, tree)
+        except RecursionError:
+            dpar = None
+        if dpar is not None and dpar.vars:
+            parents.append(dpar)
+        for dpar in parents:
+            pc = {"pattern": dpar.pattern, "code": code, "origin": origin + ":contparent", "setup": "code",
+                  "api": "find_matches", "spelling": "plain"}
+            if dpar.base != "binder":
+                pc["derived"] = dpar          # a binder's own pattern (`pass` for a body) is not one of C11's derivations
+            pr = do(pc)
+            if pr is None or pr.exc is not None or not pr.matches:
+                res.count("continued:parent-does-not-match")
+                continue
+            good = [i for i, cm in enumerate(pr.matches) if _binds_as(cm, dpar.vars)]
+            if not good:
+                res.count("continued:parent-binds-otherwise")
+                continue
+            # a parent whose __e__ stands for a body statement matches once per statement: continue several of them
+            chosen = good[:1] + (rng.sample(good[1:], min(2, len(good) - 1)) if len(good) > 1 else [])
+            for n_mi, mi in enumerate(chosen):
+                bound = dict(dpar.vars)
+                children = []
+                targets = continued_targets(rng, tree, set(bound.values()), seen, per_parent if n_mi == 0 else 2)
+                anchors = [tuple(a) for a in pr.matches[mi]["exps"].values()]
+                if anchors:
+                    # nodes INSIDE a subtree this parent match bound to an __e__: the node route applies
+                    inside = {i for i, pth in opath.items() if any(pth[:len(a)] == a for a in anchors)}
+                    targets += continued_targets(rng, tree, set(bound.values()), seen, 3, inside=inside)
+                for kind, target in targets:
+                    for variant in ("consistent", "conflict") if rng.random() < 0.4 else ("consistent",):
+                        try:
+                            dd = derive_child(rng, code, tree, target, bound, variant)
+                        except (KeyError, RecursionError):
+                            dd = None
+                        if dd is None or not dd.pattern.strip():
+                            res.count("continued:no-child:" + variant)
+                            continue
+                        keys = sorted(dd.exps)
+                        pkeys = sorted(pr.matches[mi]["exps"])
+                        if keys and pkeys and rng.random() < 0.5:
+                            mp = {k: pkeys[i % len(pkeys)] if i < len(pkeys) else "__s%d__" % i for i, k in enumerate(keys)}
+                        else:
+                            mp = {k: "__s%d__" % i for i, k in enumerate(keys)}
+                        pat = _rename_exps(dd.pattern, mp)
+                        expect = None
+                        # C11 speaks of the whole program or ONE statement of it (siblings dropped): a sequence of
+                        # statements taken from a nested body is judged by C10 only
+                        nested_seq = isinstance(target, list) and not all(any(t is st for st in tree.body) for t in target)
+                        if nested_seq:
+                            res.count("continued:nested-statement-sequence-judged-by-C10-only")
+                        if variant == "consistent" and not nested_seq:
+                            expect = {"vars": dict(dd.vars),
+                                      "exps": {mp[k]: [x for x in (v[0], v[2]) if x is not None] for k, v in dd.exps.items()}}
+                        tpaths = [opath[id(t)] for t in (target if isinstance(target, list) else [target])]
+                        seen[kind] = seen.get(kind, 0) + 1
+                        res.count("continued-root:" + kind)
+                        res.count("continued-variant:" + variant)
+                        children.append((pat, expect, tpaths))
+                run_children(code, tree, origin, pc, pr, mi, children)
+    # which node kinds with a handler of their own (in the tree under test) were the root of a continued pattern
+    for k in cc.handler_kinds():
+        if not any(s == k or s.startswith(k + ":") for s in seen):
+            res.count("continued-root-never:" + k + (" (cannot be the root of a pattern given as text)"
+                                                     if k in ("Expr", "arg", "arguments") else ""))
 
 
 def corpus_sub_expect(expect, run):
@@ -662,6 +934,7 @@ def correspond(prop):
                 sr = do(sc, api=api, anchor=pr.matches[0]["exps"][key], parent=pr.raw[0], key=key, use_previous=prev)
                 if sr is not None:
                     sc["sub_expect"] = corpus_sub_expect(expect, sr)
+        continued_cases(rng, tier, do, res, cases)
         for c in cases:
             r = do(c)
             if r is None:
@@ -673,7 +946,8 @@ def correspond(prop):
                 if r2.exc is not None or r2.matches != r.matches:
                     res.disagreements.append({"case": {"pattern": c["pattern"], "code": c["code"]},
                                               "real": "second call differs", "model": "-", "fields": ["repeat"]})
-            if rng.random() < (0.5 if tier == "quick" else 0.3):
+            p_sub = (0.5 if tier == "quick" else 0.3) * (0.25 if c["origin"].startswith("bin:") else 1)
+            if rng.random() < p_sub:
                 for sc, kw in sub_cases(rng, c, r, res.distribution):
                     do(sc, **kw)
             if (c.get("derived") is not None and r.exc is None and r.matches and r.api == "find_matches"
@@ -761,8 +1035,8 @@ def correspond(prop):
             res.count("setup:" + c["setup"])
             res.count("api:" + r.api + (":use_previous" if r.use_previous else ""))
             res.count("spelling:" + c.get("spelling", "plain"))
-            case = {k: c[k] for k in ("pattern", "code", "setup", "api", "use_previous", "parent_pattern",
-                                      "history", "step") if k in c}
+            case = {k: c[k] for k in ("pattern", "code", "setup", "api", "use_previous", "parent_pattern", "parent_key",
+                                      "parent_match", "history", "step") if k in c}
             if r.exc is not None:
                 res.count("real-raises:" + r.exc)
                 res.disagreements.append({"case": case, "real": "raises " + r.exc, "model": "-", "fields": ["exception"]})
@@ -942,13 +1216,15 @@ def rerun(case):
     prog = cc.Program(case["code"], case.get("setup", "code"))
     if case.get("api") in ("sub", "prev"):
         parent = cc.RealRun(case["parent_pattern"], prog)
-        key = case["parent_key"]
-        return cc.RealRun(case["pattern"], prog, api=case["api"], anchor=parent.matches[0]["exps"][key],
-                          parent=parent.raw[0], key=key, use_previous=case.get("use_previous", False))
+        key = case.get("parent_key")
+        mi = case.get("parent_match", 0)
+        return cc.RealRun(case["pattern"], prog, api=case["api"],
+                          anchor=parent.matches[mi]["exps"][key] if key is not None else (),
+                          parent=parent.raw[mi], key=key, use_previous=case.get("use_previous", False))
     return cc.RealRun(case["pattern"], prog, api=case.get("api", "find_matches"))
 
 
-CASE_KEYS = ("pattern", "code", "setup", "api", "use_previous", "parent_pattern", "parent_key")
+CASE_KEYS = ("pattern", "code", "setup", "api", "use_previous", "parent_pattern", "parent_key", "parent_match")
 
 
 def search_c10(rng, tier, broken, corr):
@@ -963,7 +1239,13 @@ def search_c10(rng, tier, broken, corr):
                     "unparsable texts, expire_cait_cache, set_source / restore_code, Source.verify, MAIN_REPORT, two reports "
                     "alternating), where the program a match must embed into is a fresh ast.parse of the text THAT step "
                     "asked about: every matched node must be a node of that tree (same dump with positions); "
-                    "non-trivial = a real match",
+                    "a CONTINUED match (find_matches / find_match(child, use_previous=match), match['__e__'].find_matches("
+                    "child, use_previous=True)) is judged together with the bindings of the match it continues (they are "
+                    "added to its symbol tables before checkMatch: one identifier per _name_ across both), for child "
+                    "patterns rooted at every node kind the programs have (each operator of BinOp / UnaryOp / BoolOp / "
+                    "AugAssign apart; kinds with a handler of their own in the matcher under test are listed in the "
+                    "distribution as continued-root / continued-root-never) that reuse the parent's _var_ names for the "
+                    "same and for another identifier; non-trivial = a real match",
             "samples": [], "skips": STATE.get("skips", {})}
     failures = []
     if not driver.available:
@@ -999,7 +1281,12 @@ def search_c10(rng, tier, broken, corr):
              "match": cc.show_match(rr.matches[0]) if rr.matches else None,
              "match_linenos": [m.match_lineno for m in rr.raw or []]}))
     bad = {k: v for k, v in bad.items() if v[0].get("history") is None}
-    for _, (c, r, a) in list(bad.items())[:3]:
+    # plain questions in run order (they are shrunk); continued matches are not shrunk: the smallest witnesses
+    plain = [v for v in bad.values() if v[1].api not in ("sub", "prev")]
+    cont = sorted((v for v in bad.values() if v[1].api in ("sub", "prev")),
+                  key=lambda v: len(v[0]["code"]) + len(v[0]["pattern"]) + len(v[0].get("parent_pattern", "")))
+    info["continued_matches_judged"] = sum(len(r.matches) for c, r in owners if r.api in ("sub", "prev") and r.use_previous)
+    for c, r, a in (plain[:3] + cont[:2] if len(plain) >= 3 else plain + cont[:3 - len(plain) + 1]):
         case = {k: c[k] for k in CASE_KEYS if k in c}
         if r.api not in ("sub", "prev"):
             def still(p, s):
@@ -1019,8 +1306,28 @@ def search_c10(rng, tier, broken, corr):
             if commutative_left_reuse(case["pattern"], reused):
                 # one root cause whatever the program: a stable signature
                 sig = {"oracle": "embedding", "cause": "inherited-binding-overrides-left-operand-of-commutative-root"}
-        failures.append(Failure(sig, "%s(%r) on %r returns a match that is not an embedding" % (
-            "CaitNode.find_matches" if rr.api != "find_matches" else "find_matches", case["pattern"], case["code"]),
+        how, detail = "find_matches(%r)" % case["pattern"], ""
+        if rr.api == "prev":
+            how = "find_matches(%r, use_previous=<match %d of %r>)" % (case["pattern"], case.get("parent_match", 0),
+                                                                         case["parent_pattern"])
+        elif rr.api == "sub":
+            how = "<match %d of %r>[%r].find_matches(%r, use_previous=%s)" % (
+                case.get("parent_match", 0), case["parent_pattern"], case.get("parent_key"), case["pattern"],
+                bool(case.get("use_previous")))
+        elif rr.api == "node":
+            how = "CaitNode.find_matches(%r)" % case["pattern"]
+        if rr.use_previous and rr.parent is not None and rr.matches:
+            inh = cc.inherited_binds(rr.parent)
+            mine = {}
+            for (t, k), lst in rr.matches[idx]["binds"].items():
+                mine.setdefault(k, set()).update(i for i, _ in lst)
+            clash = {k: (sorted(mine[k]), sorted(set(ids))) for (t, k), ids in inh.items()
+                     if k in mine and mine[k] - set(ids)}
+            if clash:
+                sig["why"] = "continued-match-contradicts-inherited-binding"
+                detail = "; " + ", ".join("%s is bound to %s, the match it continues binds it to %s" % (k, a_, b_)
+                                          for k, (a_, b_) in sorted(clash.items()))
+        failures.append(Failure(sig, "%s on %r returns a match that is not an embedding%s" % (how, case["code"], detail),
             dict(case, match_index=idx, original={"pattern": c["pattern"], "code": c["code"]},
                  match=cc.show_match(rr.embed_matches()[idx]) if rr.matches else None)))
     if owners:
@@ -1043,8 +1350,12 @@ def search_c11(rng, tier, broken, corr):
                     "between, cache hits, submission vs explicit student_code, expire_cait_cache, set_source / "
                     "restore_code), and for sub-patterns searched inside / with an inherited "
                     "match (CaitNode.find_matches, find_matches(use_previous=match)) whose placeholders are fresh or "
-                    "reuse names the inherited match bound; a generalisation (same steps) of ANY pattern that matches "
-                    "must still match; non-trivial = derivation with at least one step",
+                    "reuse names the inherited match bound, rooted at every node kind of the program (continued matches: "
+                    "the child is the program's own subtree with the parent's placeholders put back consistently); nested "
+                    "binary operations (every tree shape with 2-4 operands x every assignment of + * - to the inner nodes, "
+                    "operands distinct / repeated / constant, in 24 statement contexts, every identifier a placeholder of its "
+                    "own); a generalisation (same steps) of ANY pattern that matches must still match - also of the program "
+                    "text with operands of + / * swapped; non-trivial = derivation with at least one step",
             "samples": [], "steps": {}, "skips": STATE.get("skips", {}),
             # derived cases for which the driver decided the hypotheses of c11_generalised_fragment_matches (genCase)
             "theorem_domain": {}}
@@ -1185,6 +1496,7 @@ def search_c11(rng, tier, broken, corr):
                                 {"pattern": c["pattern"], "code": c["code"], "setup": c["setup"], "api": "find_matches",
                                  "generalisation_of": parent, "why": why}))
     seen = set()
+    plain = []
     bad.sort(key=lambda x: len(x[1].code) + len(x[1].pattern))      # the smallest witness of each signature
     for c, d, why in bad:
         kinds = sorted({s.split(":")[0] for s in d.steps})
@@ -1194,10 +1506,10 @@ def search_c11(rng, tier, broken, corr):
         if key in seen:
             continue
         seen.add(key)
-        failures.append(Failure(sig, "pattern %r derived from the program by %s: %s" % (d.pattern, d.steps or "no step", why),
-                                {"pattern": d.pattern, "code": d.code, "steps": d.steps, "vars": d.vars,
-                                 "exps": {k: v[1] for k, v in d.exps.items()}, "why": why}))
-        if len(failures) >= 5:
+        plain.append(Failure(sig, "pattern %r derived from the program %r by %s: %s" % (d.pattern, d.code, d.steps or "no step", why),
+                             {"pattern": d.pattern, "code": d.code, "steps": d.steps, "vars": d.vars,
+                              "exps": {k: v[1] for k, v in d.exps.items()}, "why": why}))
+        if len(plain) >= 5:
             break
     uniq, seen2 = [], set()
     for f in failures:
@@ -1205,7 +1517,9 @@ def search_c11(rng, tier, broken, corr):
         if k not in seen2:
             seen2.add(k)
             uniq.append(f)
-    return uniq[:5], info
+    # the plain oracle's witnesses (one question on a fresh report) are the easiest to read: never crowded out
+    n_plain = min(len(plain), max(2, 5 - len(uniq)))
+    return plain[:n_plain] + uniq[:5 - n_plain], info
 
 
 # --------------------------------------------------------------------------
@@ -1268,6 +1582,9 @@ def replay(payload):
         print("second call: %d matches, cait['success'] = %r" % (len(second.matches or []), prog.report["cait"]["success"]))
         return 0
     r = rerun(case)
+    if r.use_previous and r.parent is not None:
+        print("the match it continues binds:", {"%s:%s" % k: v for k, v in cc.inherited_binds(r.parent).items()},
+              "(counted as part of the continued match by checkMatch)")
     print("real  :", "raises " + r.exc if r.exc else json.dumps([cc.show_match(m) for m in r.matches], default=str))
     d = Driver("driver_c10")
     if d.available:
